@@ -145,6 +145,28 @@ def check_case(ctx, case):
             else:
                 ctx.count("magnitude_tests_with_foreign_catalog_magnitude_grid")
                 compare("M:catalog_region_with_other_magnitude_grid", o.value, [x * scale for x in mg], w.sum(axis=0).tolist(), B)
+    # ---- one observed catalog OBJECT handed to several tests in a row (it also holds an event below the forecast's first magnitude
+    # edge, which the S-test counts - it bins in space only - and the M-test's histogram leaves out): a test reads the catalog, it
+    # does not change it, so the S-test before and after the M-test reports the same statistic and the events are still there
+    if n_obs >= 1 and case.get("shared_catalog"):
+        from csep.core.catalogs import CSEPCatalog
+        evs = [S.event(i, k, m) for i, (k, m) in enumerate(S.obs)]
+        low = list(S.event(9000, S.obs[0][0], 0))
+        low[0], low[5] = "lowmag", S.edges[0] - S.hm / 2
+        shared = CSEPCatalog(data=evs + [tuple(low)], region=region, name="obs")
+        before_rows = shared.catalog.tolist()
+        o1 = call(P.spatial_test, fore, shared, num_simulations=2, seed=1)
+        o2 = call(P.magnitude_test, fore, shared, num_simulations=2, seed=1)
+        o3 = call(P.spatial_test, fore, shared, num_simulations=2, seed=1)
+        ctx.count("shared_catalog_sequences")
+        if o1.ok and o3.ok:
+            a_, b_ = float(o1.value.observed_statistic), float(o3.value.observed_statistic)
+            if not (a_ == b_ or (math.isnan(a_) and math.isnan(b_))):
+                ctx.violation("S_statistic_changed_after_an_M_test_on_the_same_catalog_object", {"before": a_, "after": b_, "events_before": len(before_rows), "events_after": shared.event_count})
+        elif o1.ok != o3.ok:
+            ctx.violation("S_test_outcome_changed_after_an_M_test_on_the_same_catalog_object", {"before": repr(o1)[:200], "after": repr(o3)[:200]})
+        if shared.catalog.tolist() != before_rows:
+            ctx.violation("evaluation_modified_the_observed_catalog", {"events_before": len(before_rows), "events_after": shared.event_count, "m_test_ok": o2.ok})
     # ---- L (seeded; simulated arrays seen through a soft spy)
     seen = []
     orig = getattr(P, "_simulate_catalog", None)
@@ -189,6 +211,8 @@ def cases(draw, max_events=300):
     c["sims"] = [[[draw(st.floats(0, 0.999999)), draw(st.sampled_from([0.5, 0.1, 0.9, 0.01, 0.99, 0, 1]))] for _ in range(n)] for _ in range(k)] if n <= 40 else \
         [draw(st.lists(st.tuples(st.floats(0, 0.999999), st.sampled_from([0.5, 0.1, 0.9])).map(list), min_size=n, max_size=n)) for _ in range(k)]
     c["seed"] = draw(st.integers(0, 2**31 - 1))
+    if draw(st.integers(0, 2)) == 0:
+        c["shared_catalog"] = True
     return c
 
 
